@@ -346,6 +346,9 @@ class Z3Session:
         assert self.p is not None and self.p.stdin is not None and self.p.stdout is not None
         self.queries += 1
         text = "(reset)\n(set-option :timeout %d)\n" % self.timeout_ms + "\n".join(decls) + "\n" + "\n".join(f"(assert {a})" for a in asserts) + "\n(check-sat)\n"
+        if os.environ.get("VK_AUX_DUMP"):
+            with open(os.environ["VK_AUX_DUMP"] + f"/q{self.queries}.smt2", "w") as f:
+                f.write(text)
         try:
             self.p.stdin.write(text)
             self.p.stdin.flush()
